@@ -180,7 +180,7 @@ def _none_to_flag(r):
 
 def configs(tier):
     ids = sorted({c["name"] for c in cases(tier)})
-    return [{"fn": n} for n in ids] + [{"fn": "generic"}]
+    return [{"fn": n} for n in ids] + [{"fn": "generic"}, {"fn": "extreme finite values"}]
 
 
 def canaries(tier):
@@ -207,8 +207,31 @@ def _generic_cases():
     return gsets.cases_for("C15")
 
 
+def _extreme(ctx):
+    from qucumber.utils import cplx
+    """The reals of the symbolic run do not overflow.  Finite operands whose intermediate quantities overflow in a naive
+    formulation (|1 + e^z|^2 for Re z > 355, squares of moduli beyond 1e154) are decided here on the real functions with
+    numbers, against Python's complex arithmetic."""
+    import cmath
+    ctx.under_contract("cplx.sigmoid", "cplx.absolute_value")
+    zs = [complex(x, y) for x in (-700.0, -360.0, -30.0, 0.5, 30.0, 360.0, 400.0, 555.5, 700.0) for y in (0.0, 1.0, -2.5)]
+    re, im = torch.tensor([z.real for z in zs], dtype=torch.double), torch.tensor([z.imag for z in zs], dtype=torch.double)
+    s = cplx.sigmoid(re, im)
+    for i, z in enumerate(zs):
+        want = 1 / (1 + cmath.exp(-z)) if z.real > 0 else cmath.exp(z) / (1 + cmath.exp(z))
+        got = complex(float(s[0, i]), float(s[1, i]))
+        ctx.holds("extreme/sigmoid(%r) == complex arithmetic" % (z,), abs(got - want) <= 1e-12 * (1 + abs(want)), "%r vs %r" % (got, want))
+    big = [complex(3e150, -4e150), complex(-1e-150, 2e-150), complex(1e153, 1e153), complex(1e200, 1e-200), complex(-3e250, 4e250)]
+    x = torch.tensor([[z.real for z in big], [z.imag for z in big]], dtype=torch.double)
+    a = cplx.absolute_value(x)
+    for i, z in enumerate(big):
+        ctx.holds("extreme/absolute_value(%r) == |z|" % (z,), abs(float(a[i]) - abs(z)) <= 1e-12 * abs(z), "%r vs %r" % (float(a[i]), abs(z)))
+
+
 def run_config(ctx, cfg):
     canary = getattr(ctx, "canary", None)
+    if cfg["fn"] == "extreme finite values":
+        return _extreme(ctx)
     if cfg["fn"] == "generic":
         # the same functions once more, on operands of symbolic shape: holds for every size (front end G)
         from contracts import generic
